@@ -217,6 +217,7 @@ func execute(p *conn, sc *Script, variant string, runID string, ws atp.WorkStart
 		_ = send(atp.RuntimeMessage{MessageID: atp.MessageTypeError, RunID: runID, MessageData: atp.ErrorMessage{Error: "invalid input: " + inputErr, StepFatal: true}})
 		return
 	}
+	p.started.Store(true)
 	Log("exec-start", p.src, p.id, runID, map[string]any{"step": ws.StepID, "input": input, "raw": ws.Config})
 	if tag, ok := input["tag"].(string); ok && len(tag) < 64 {
 		// lets a trigger select the execution that belongs to one particular run (C14)
